@@ -132,6 +132,26 @@ def run(ctx):
         elif reads != 1:
             ctx.fail("C12-R2", CREATE, "gv_weight reads", "self.gv_weight is read %d times" % reads, cr.loc())
 
+    # "a stream without GV" is a stream whose USE_GV flag is off: Models::gv hands out GV
+    # statistics (Some) only under the stream's use_gv flag - whatever the loader kept in gv_model
+    gvb = cm.body_or_fail(ctx, p, "C12-R2", "model::Models::<'a>::gv")
+    if gvb is not None:
+        ebg = ExprBuilder(gvb)
+        somes = [(bb, e) for bb, e, item in paths.return_exprs(gvb, ebg) if e[0] == "agg" and e[1].endswith("Option::Some")]
+        ctx.anchor("C12-R2", "Some(..) returns of Models::gv", len(somes), 1, gvb.loc())
+        for bb, e in somes:
+            flagged = False
+            for g in paths.guards(gvb, bb, ebg):
+                if g[0] in ("true", "false"):
+                    pos, c = paths.bool_atoms(g)
+                    sc = show(c)
+                    if pos and sc.endswith(".use_gv") and "stream_metadata(self.voices, stream_index)" in sc:
+                        flagged = True
+            if flagged:
+                ctx.ok("C12-R2", "Models::gv returns Some(..) only under stream_metadata(stream_index).use_gv", gvb.loc())
+            else:
+                ctx.fail("C12-R2", gvb.path, "use_gv flag", "Models::gv can return GV statistics for a stream whose USE_GV flag is off (no dominating `stream_metadata(stream_index).use_gv` test): such a stream would be rescaled and react to its GV weight", gvb.loc())
+
     # ---- R3
     pg = cm.body_or_fail(ctx, p, "C12-R3", GV + "parmgen")
     if pg is not None:
